@@ -70,6 +70,14 @@ def resolve_type(world, name, pkg):
     raise SpecError('unknown type %s (package %s)' % (name, pkg))
 
 
+def _has_ite(t, depth=0):
+    if depth > 40 or not z3.is_app(t):
+        return False
+    if t.decl().kind() == z3.Z3_OP_ITE:
+        return True
+    return any(_has_ite(c, depth + 1) for c in t.children())
+
+
 class SpecEval:
     def __init__(self, V, pkg, env, heap, old=None, loop_old=None, results=None):
         self.V = V
@@ -187,6 +195,10 @@ class SpecEval:
                 if g['name'] == name:
                     ty = self.w.prog.types[g['type']]['elem']
                     return SV(self.heap.get(('g', self.pkg, name)), ty)
+        if pk:
+            for c in pk.get('consts', []):
+                if c['name'] == name:
+                    return SV(self.w.const({'k': 'const', 'type': c['type'], 'vk': c['vk'], 'v': c['v']}), c['type'])
         raise SpecError('unknown identifier %s' % name)
 
     def field(self, v, fname):
@@ -285,10 +297,20 @@ class SpecEval:
         pats = []
         for tr in trig:
             terms = [ev2.ev(x).t for x in tr]
+            if any(_has_ite(t_) for t_ in terms):
+                continue        # solvers reject if-then-else inside triggers
             pats.append(z3.MultiPattern(*terms) if len(terms) > 1 else terms[0])
-        if kind == 'forall':
-            return SV(z3.ForAll(vs, b, patterns=pats), 'bool')
-        return SV(z3.Exists(vs, b, patterns=pats), 'bool')
+        try:
+            if kind == 'forall':
+                return SV(z3.ForAll(vs, b, patterns=pats), 'bool')
+            return SV(z3.Exists(vs, b, patterns=pats), 'bool')
+        except z3.Z3Exception as e:
+            # a trigger that z3 rejects (e.g. it simplified to a term without the bound variable): fall back to
+            # automatic trigger selection rather than failing the whole function
+            self.V.notes.append('a user trigger was rejected by z3 and dropped: %s' % (pats,))
+            if kind == 'forall':
+                return SV(z3.ForAll(vs, b), 'bool')
+            return SV(z3.Exists(vs, b), 'bool')
 
     # ------------------------------------------------------------------
     def call(self, name, args):
@@ -314,6 +336,15 @@ class SpecEval:
             env = dict(env)
             env.update(self.bound)
             return self.sub(heap=h, env=env).ev(args[0])
+        if name in ('remaining', 'canunread'):
+            from .externals import rd_keys
+            v = self.ev(args[0])
+            kr, kc = rd_keys()
+            if name == 'remaining':
+                if not self.bound:
+                    self.V.add_hyp(self.heap.get(kr)[v.t] >= 0)     # a count: never negative (model invariant)
+                return SV(self.heap.get(kr)[v.t], 'int')
+            return SV(self.heap.get(kc)[v.t], 'bool')
         if name == 'visited':
             # visited(n, k): key k has already been delivered by the n-th map range statement of the function
             n = args[0][1]
